@@ -11,9 +11,8 @@ M3  int(symbolic_str[, base])        -> pymodels.py_int run under the tracer (ex
 M4e str.encode('ascii'|'utf-8'|'utf-16-le/be') on a symbolic str -> pymodels.encode_values
     (CrossHair's own codecs realise the whole string to build the exception object).
 M3f float(symbolic_str)              -> validity decided exactly by pymodels.float_valid; the
-    *value* of a valid literal is left to CrossHair's own model when it has one, otherwise
-    a fresh unconstrained symbolic float (over-approximation: only used where the value
-    is not part of the postcondition).
+    value is the exact rational value of the literal (pymodels.py_float), i.e. floats are
+    treated as reals: rounding is outside every claim that uses this model.
 """
 import re
 import sys
@@ -25,6 +24,23 @@ PLACEHOLDER = '<msg>'
 
 
 _opcode_installed = False
+
+
+def floats_as_reals():
+    """CrossHair models a symbolic float either as a z3 Real or as an IEEE-754 bit
+    pattern, and forks on the choice in every path; the IEEE queries of this code base
+    (decimal literal -> value) time out.  Harness modules that declare FLOATS_AS_REALS
+    pin the representation to Real: floats are exact rationals, rounding is outside
+    the claim (and is compared concretely on replay)."""
+    from crosshair.libimpl import builtinslib as bl
+    orig = bl.ModelingDirector.get
+
+    def get(self, typ):
+        if typ is float:
+            self.global_representations[typ] = bl.RealBasedSymbolicFloat
+            return bl.RealBasedSymbolicFloat
+        return orig(self, typ)
+    bl.ModelingDirector.get = get
 
 
 def install_opcode_models(m1=True):
@@ -135,8 +151,7 @@ def overrides(m1=True):
         if sym:
             if not pymodels.float_valid(val):
                 raise ValueError('could not convert string to float')
-            with NoTracing():
-                return proxy_for_type(float, 'floatlit' + core.context_statespace().uniq())
+            return pymodels.py_float(val)
         return float(val)
     import codecs
     from crosshair.libimpl.builtinslib import SymbolicBytes
@@ -188,6 +203,20 @@ def overrides(m1=True):
             with NoTracing():
                 return SymbolicBytes(vals)
         return codecs.encode(obj, encoding, errors)
+    # M11: CrossHair 0.0.110's symbolic re.Match.groupdict() returns (start, end) spans
+    # instead of substrings and drops unmatched groups; corrected here (engine defect).
+    from crosshair.libimpl import relib
+
+    def _groupdict(self, default=None):
+        ret = {}
+        for name, idx in self.re.groupindex.items():
+            g = self._groups[idx]
+            ret[name] = default if g is None else self.string[g[0]:g[1]]
+        return ret
+    for _cls in vars(relib).values():
+        if isinstance(_cls, type) and 'groupdict' in vars(_cls):
+            _cls.groupdict = _groupdict
+
     # M7: hasattr/getattr(obj, symbolic_name) on the harness's stand-in modules (objects
     # that list their attribute names in __verif_names__): symbolic comparison with each
     # name instead of realising the name inside the C builtin.
